@@ -228,6 +228,7 @@ const int N_EMPTY_RECORD = 5;
 std::string fault_opname(const Fault& f) {
     std::string k = FILE_NAMES[f.file];
     if (f.cls == 4) return k + ".empty_record." + EMPTY_RECORD_NAMES[f.op];
+    if (f.cls == 5) return k + ".long_last_word_at_eof";
     if (f.cls == 0) return k + (f.file == 0 ? ".token." : ".elem.") + tokop_name(f.op);
     if (f.cls == 1) return k + ".line." + blkop_name(f.op);
     if (f.cls == 2) return k + ".section." + blkop_name(f.op);
@@ -271,7 +272,8 @@ void build_catalogue(World& w) {
             for (long t = 0; t < (long)s.size(); t++) w.cat.push_back({b, file, 3, 0, t});
             if (file == 0) { long ncells = 0; for (auto& r : vtk_roles(s)) if (r == "cell_len") ncells++;
                 for (long c = 0; c < ncells; c++) for (int op = 0; op < 4; op++) w.cat.push_back({b, 0, 4, op, c});
-                w.cat.push_back({b, 0, 4, 4, 0}); }
+                w.cat.push_back({b, 0, 4, 4, 0});
+                { long n = (long)vtk_tokens(s).size(); for (long t = 0; t < n; t++) w.cat.push_back({b, 0, 5, 0, t}); } }
         }
         w.per_base.push_back((long)(w.cat.size() - before));
     }
@@ -320,6 +322,8 @@ std::string apply_fault(const std::string& s, const Fault& f, std::string& targe
     if (f.cls == 2 && f.file == 0) { auto L = vtk_sections(s); bool hn = f.target + 1 < (long)L.size(); target = "section#" + std::to_string(f.target) + "='" + s.substr(L[f.target].b, std::min<size_t>(12, L[f.target].e - L[f.target].b - 1)) + "'"; return block_op(s, L[f.target], hn, hn ? L[f.target + 1] : Span{0, 0}, f.op); }
     if (f.cls == 2) { auto el = xml_elems(s); const Elem& x = el[f.target]; int nx = next_sibling(el, (int)f.target); target = "<" + x.name + ">#" + std::to_string(f.target);
         return block_op(s, {x.ob, x.ce}, nx >= 0, nx >= 0 ? Span{el[nx].ob, el[nx].ce} : Span{0, 0}, f.op); }
+    if (f.cls == 5) {   // the file ends inside a very long word: nothing, not even a newline, follows it
+        auto t = vtk_tokens(s); Span sp = t[f.target]; target = "token#" + std::to_string(f.target) + " (file ends after it)"; return s.substr(0, sp.b) + value_text(N_VALUES - 1); }
     if (f.cls == 4) {
         std::vector<Span> t = vtk_tokens(s); std::vector<std::string> role = vtk_roles(s); std::string r = s;
         if (f.op == 4) { size_t a = std::string::npos, b2 = 0; for (size_t k = 0; k < t.size(); k++) { if (role[k] == "points_count") r.replace(t[k].b, t[k].e - t[k].b, std::string(t[k].e - t[k].b, '0')); if (role[k] == "coord") { if (a == std::string::npos) a = t[k].b; b2 = t[k].e; } }
